@@ -2,12 +2,34 @@ import ComposeVerif.Model.C11Normalize
 /-!
 # C11 — negative facts about the unchanged tree (concrete witnesses)
 
-(`normalize_not_total` — an empty `pid:` reached the unchecked `n.(string)` of the namespace loop and panicked — held
-until the C01 repairs: repo commits "an empty pid … no longer panics in Normalize" and "Normalize reports … as an
-error instead of panicking".  `Normalize` has no panic outcome any more: `Props/C11.lean` `normalize_never_panics`.)
+`Normalize` is *not* total on arbitrary trees: its unchecked type assertions (`l.([]any)`, `e.(string)`,
+`b.(map[string]any)`, …) panic on shapes the schema would have rejected.  (The one shape the schema accepts —
+an empty `pid:` — was DESIGN §10 #2; it has been repaired in /repo by `fix: an empty pid … no longer panics in
+Normalize`, the model follows: `null_pid_is_ok`; corpus/C11/null-pid.json replays it on the real code.)
 -/
 namespace CV.C11
 open CV CV.Val
+
+def nullPidDoc : KVs :=
+  [("name", .str "proj"), ("services", .map [("a", .map [("image", .str "i"), ("pid", .null)])])]
+
+def badLinkDoc : KVs :=
+  [("name", .str "proj"), ("services", .map [("a", .map [("links", .seq [.int 1])])])]
+
+def isPanicAt (site : String) : Out KVs → Bool
+  | .panic s => s == site
+  | _ => false
+
+def isOk : Out KVs → Bool
+  | .ok _ => true
+  | _ => false
+
+/-- negation of "`Normalize` never panics" (on trees that did not go through the schema): witness `links: [1]` -/
+theorem normalize_not_total : ∃ d, isPanicAt "loader.Normalize" (normalize pathClean [] d) = true :=
+  ⟨badLinkDoc, by decide⟩
+
+/-- after the repair an empty `pid:` is accepted -/
+theorem null_pid_is_ok : isOk (normalize pathClean [] nullPidDoc) = true := by decide
 
 def argsOfA (d : KVs) : Option Val :=
   match lookup "services" d with
